@@ -4,8 +4,21 @@ package main
 
 import "github.com/welllog/golib/setz"
 
+// the iterator value is taken once per bitmap and ranged at every observation (a pass that stops after one value,
+// then a full one): an iter.Seq is evaluated when it is ranged, however long it has been held
+var held = map[*setz.RoaringBitmap]func(func(uint32) bool){}
+
 func allVals(r *setz.RoaringBitmap) []uint32 {
+	seq, ok := held[r]
+	if !ok {
+		if len(held) > 64 {
+			held = map[*setz.RoaringBitmap]func(func(uint32) bool){}
+		}
+		seq = r.All()
+		held[r] = seq
+	}
+	seq(func(uint32) bool { return false })
 	out := []uint32{}
-	r.All()(func(v uint32) bool { out = append(out, v); return len(out) < 1<<20 })
+	seq(func(v uint32) bool { out = append(out, v); return len(out) < 1<<20 })
 	return out
 }
